@@ -621,6 +621,13 @@ pub trait _UnwindSectionPrivate<R: Reader> {
     /// given DWARF format.
     fn cie_offset_encoding(format: Format) -> CieOffsetEncoding;
 
+    /// Return true if the CIE offset in an FDE is an offset from the start of the
+    /// section. Such offsets may require relocation, so they must be read with
+    /// `Reader::read_offset`.
+    fn cie_offset_is_section_offset() -> bool {
+        false
+    }
+
     /// For `.eh_frame`, CIE offsets are relative to the current position. For
     /// `.debug_frame`, they are relative to the start of the section. We always
     /// internally store them relative to the section, so we handle translating
@@ -813,6 +820,10 @@ impl<R: Reader> _UnwindSectionPrivate<R> for DebugFrame<R> {
             Format::Dwarf32 => CieOffsetEncoding::U32,
             Format::Dwarf64 => CieOffsetEncoding::U64,
         }
+    }
+
+    fn cie_offset_is_section_offset() -> bool {
+        true
     }
 
     fn resolve_cie_offset(&self, _: R::Offset, offset: R::Offset) -> Option<R::Offset> {
@@ -1137,10 +1148,21 @@ where
 
     let mut rest = input.split(length)?;
     let cie_offset_base = rest.offset_from(section.section());
-    let cie_id_or_offset = match Section::cie_offset_encoding(format) {
+    let mut cie_offset_input = if Section::cie_offset_is_section_offset() {
+        Some(rest.clone())
+    } else {
+        None
+    };
+    let mut cie_id_or_offset = match Section::cie_offset_encoding(format) {
         CieOffsetEncoding::U32 => rest.read_u32().map(u64::from)?,
         CieOffsetEncoding::U64 => rest.read_u64()?,
     };
+    // The CIE id is a constant, but the CIE offset in an FDE may require relocation.
+    if let Some(cie_offset_input) = cie_offset_input.as_mut()
+        && !Section::is_cie(format, cie_id_or_offset)
+    {
+        cie_id_or_offset = cie_offset_input.read_offset(format)?.into_u64();
+    }
 
     Ok(Some(CfiEntryPrefix {
         offset,
@@ -3749,18 +3771,20 @@ fn parse_encoded_value<R: Reader>(
         // Unsigned variants.
         constants::DW_EH_PE_absptr => input.read_address(parameters.address_size),
         constants::DW_EH_PE_uleb128 => input.read_uleb128(),
-        constants::DW_EH_PE_udata2 => input.read_u16().map(u64::from),
-        constants::DW_EH_PE_udata4 => input.read_u32().map(u64::from),
-        constants::DW_EH_PE_udata8 => input.read_u64(),
+        // The fixed size variants are read using `Reader::read_address` because
+        // they may require relocation.
+        constants::DW_EH_PE_udata2 => input.read_address(2),
+        constants::DW_EH_PE_udata4 => input.read_address(4),
+        constants::DW_EH_PE_udata8 => input.read_address(8),
 
         // Signed variants. Here we sign extend the values (happens by
         // default when casting a signed integer to a larger range integer
         // in Rust), return them as u64, and rely on wrapping addition to do
         // the right thing when adding these offsets to their bases.
         constants::DW_EH_PE_sleb128 => input.read_sleb128().map(|a| a as u64),
-        constants::DW_EH_PE_sdata2 => input.read_i16().map(|a| a as u64),
-        constants::DW_EH_PE_sdata4 => input.read_i32().map(|a| a as u64),
-        constants::DW_EH_PE_sdata8 => input.read_i64().map(|a| a as u64),
+        constants::DW_EH_PE_sdata2 => input.read_address(2).map(|a| a as i16 as u64),
+        constants::DW_EH_PE_sdata4 => input.read_address(4).map(|a| a as i32 as u64),
+        constants::DW_EH_PE_sdata8 => input.read_address(8),
 
         // That was all of the valid encoding formats.
         _ => unreachable!(),
